@@ -11,9 +11,9 @@ STACK_IDS = [s.id for s in pool.STACKS]
 
 # runs per build: (quick, thorough)
 HIST = {
-    'C12': dict(profile='ownership', groups=['core', 'io', 'conv'], compile_groups=('core',), sweep='ownsweep',
+    'C12': dict(profile='ownership', groups=['core', 'io', 'conv'], compile_groups=('core',), sweep='ownsweep,allocsweep',
                 builds=[('rel-plain', 160000, 3000000), ('dbg-asan', 30000, 500000), ('rel-asan', 30000, 500000)]),
-    'C05': dict(profile='conversion', groups=['core', 'io', 'conv'], compile_groups=('conv',), sweep='convsweep',
+    'C05': dict(profile='conversion', groups=['core', 'io', 'conv'], compile_groups=('conv',), sweep='convsweep,allocsweep',
                 builds=[('rel-plain', 120000, 2500000), ('dbg-asan', 30000, 500000)]),
     'C06': dict(profile='roundtrip', groups=['core', 'io', 'conv'], compile_groups=('io',), sweep='rtsweep',
                 builds=[('rel-plain', 120000, 2500000), ('dbg-asan', 30000, 500000)]),
@@ -101,24 +101,29 @@ def check(prop, tier, seed):
     # systematic sweep: every extent vector up to a bound for every conversion pair (C05) /
     # every serialisable stack (C06), values still seeded
     sweep_info = None
-    if cfg.get('sweep'):
-        sargs = ['--property', prop, '--profile', cfg['sweep'], '--seed', str(seed), '--tier', tier, '--disable', disabled]
+    for sweep in (cfg.get('sweep') or '').split(','):
+      if sweep:
+        sargs = ['--property', prop, '--profile', sweep, '--seed', str(seed), '--tier', tier, '--disable', disabled]
         for b, _, _ in cfg['builds']:
             res = run.run_once(exes[b], sargs + ['--count-sweep'])
             n = 0
             for line in res['out']:
                 if line.startswith('SWEEP '):
                     n = int(line.split()[1])
-            reps = 4 if thorough and cfg['sweep'] != 'ownsweep' else 1  # each repetition draws new values for the same structures
+            reps = 4 if thorough and sweep in ('convsweep', 'rtsweep') else 1  # each repetition draws new values for the same structures
             t0 = time.time()
             results, stats = run.run_batch(exes[b], sargs, n * reps, workers_for(b))
             dt = time.time() - t0
-            per_build[b + ' sweep'] = dict(runs=len(results), wall_s=round(dt, 2))
+            per_build[b + ' ' + sweep] = dict(runs=len(results), wall_s=round(dt, 2))
             total_runs += len(results)
-            sweep_info = dict(profile=cfg['sweep'], plans_per_pass=n, passes=reps,
+            sweep_info = sweep_info or {}
+            sweep_info[sweep] = dict(plans_per_pass=n, passes=reps,
                               bounds=('every sequence Construct(slot 0) + %d further operations over a 20-symbol alphabet (construct/write/copy/move '
                                       'construct, copy/move assign incl. self, destroy, default-construct, dump, load, load-assign on two slots) '
-                                      'for 6 representative stacks' % (4 if thorough else 3)) if cfg['sweep'] == 'ownsweep' else
+                                      'for 6 representative stacks' % (4 if thorough else 3)) if sweep == 'ownsweep' else
+                              ('the failing allocation is enumerated: k = 1..40 for every conversion pair, k = 1..6 for copy construction, copy assignment, '
+                               'load, load-and-assign (every stack) and construction from a moved backend (every wrap pair); each plan repeats the '
+                               'operation fault-free afterwards') if sweep == 'allocsweep' else
                               'extents 1..9 (N=1), 1..6 (N=2), 1..4 (N=3), 1..3 (N=4), all combinations')
             for k, v in stats.items():
                 all_stats[k] = all_stats.get(k, 0) + v
@@ -133,7 +138,7 @@ def check(prop, tier, seed):
                         key = checks.death_key(r, STACK_IDS)
                     else:
                         key = r['key']
-                    r = dict(r, sweep=True)
+                    r = dict(r, sweep=sweep)
                     viol_first.setdefault(key, (b, r))
     # memcheck pass (C15): the same program space under valgrind, uninitialised-value use is
     # something ASan cannot see
@@ -230,7 +235,7 @@ def check(prop, tier, seed):
 
 def handle_violation(rep, prop, cfg, exes, disabled, seed, tier, key, b, r):
     exe = exes[b]
-    base_args = ['--property', prop, '--profile', cfg['sweep'] if r.get('sweep') else cfg['profile'], '--seed', str(seed),
+    base_args = ['--property', prop, '--profile', r.get('sweep') or cfg['profile'], '--seed', str(seed),
                  '--tier', tier, '--disable', disabled]
     if key.startswith('build-diverge'):
         path = checks.replay_path(prop, key)
